@@ -22,7 +22,7 @@ MOD, CFG = "ColumnsTrace", "ColumnsTrace.cfg"
 KF_IMAX = ("a numerical column holding the u64 value 9223372036854775807 (= i64::MAX) and a negative i64 is coerced to f64 "
            "instead of i64: the values are not returned exactly (off by one in CompatibleNumericalTypes::accept_value)")
 
-SAFE_SHARED = {"const", "linear", "linear_noise", "blockwise", "small", "gcd", "sorted", "if", "all3", "iu"}
+SAFE_SHARED = {"const", "linear", "linear_noise", "blockwise", "small", "gcd", "sorted", "if", "all3"}   # values below 2^53 in magnitude
 INDEX_NAME = {"u64": ["u"], "i64": ["i"], "f64": ["f"], "bool": ["b", "j.o.b"], "date": ["d", "j.o.d"], "ip": ["ip"], "str": ["s", "j.s"],
               "bytes": ["y"], "mixed": ["j.a"]}
 
